@@ -1,0 +1,29 @@
+//go:build verif
+
+// Package verifhook provides verification-only taps. With the "verif" build
+// tag the harness may install callbacks; without it every call is an empty,
+// inlinable function.
+package verifhook
+
+// FSHook, when set, is called after every successful file-system mutation
+// performed by the storage packages.
+var FSHook func(kind, path string, a, b int64)
+
+// PauseHook, when set, is called at named points inside API calls so that a
+// controller can hold one call there and run other calls to completion.
+var PauseHook func(name string)
+
+// Enabled reports whether hooks are compiled in.
+const Enabled = true
+
+func FS(kind, path string, a, b int64) {
+	if h := FSHook; h != nil {
+		h(kind, path, a, b)
+	}
+}
+
+func Pause(name string) {
+	if h := PauseHook; h != nil {
+		h(name)
+	}
+}
